@@ -85,7 +85,50 @@ def setstate_watcher_table(ctx, rule):
         ctx.ok(rule, ss, ss.node, "saved table {a: [w_ab, w_a], b: [w_ab]} -> {a: [n0, n1], b: [n0]}: identity, order, binding to the copy and callbacks as specified")
 
 
+def occupied_slots_by_presence(ctx, rule):
+    """get_occupied_slots -- what Parameterized.__getstate__ saves of a subclass's own __slots__ -- interpreted on an
+    instance with a slot holding None, a slot holding a value and a slot never assigned.  Specification: a slot is saved
+    iff it is assigned (presence), whatever it holds; a slot left out because it holds None is unset on the copy."""
+    from engine.absint import Interp, Obj, Unsupported
+    from engine.loader import AnalysisError
+    f = ctx.repo.func("param.parameterized.get_occupied_slots")
+    inst = Obj("instance", holds_none=None, holds_value=Obj("a_value"), holds_zero=0)
+    cls = Obj("Cls")
+
+    def hook(fn, args, kwargs):
+        if fn == "get_all_slots":
+            return ["holds_none", "holds_value", "holds_zero", "never_assigned"]
+        if fn == "type" and args and args[0] is inst:
+            return cls
+        if fn == "hasattr" and len(args) == 2 and args[0] is inst:
+            return args[1] in inst.attrs
+        if fn == "getattr" and len(args) >= 2 and args[0] is inst and isinstance(args[1], str):
+            if args[1] in inst.attrs:
+                return inst.attrs[args[1]]
+            if len(args) == 3:
+                return args[2]
+        return NotImplemented
+    it = Interp(ctx.hier, call_hook=hook)
+    try:
+        outs = it.run_all(f, {f.params[0]: inst})
+    except Unsupported as e:
+        raise AnalysisError("%s: absint cannot interpret get_occupied_slots: %s" % (rule, e))
+    if len(outs) != 1 or outs[0].imprecise or outs[0].kind != "return" or not isinstance(outs[0].value, (list, tuple, set)):
+        raise AnalysisError("%s: get_occupied_slots is not interpretable precisely (%s)" % (rule, outs[0].notes[:2] if outs else "no outcome"))
+    ctx.abstract_cases += 1
+    got, want = sorted(outs[0].value), ["holds_none", "holds_value", "holds_zero"]
+    if got == want:
+        ctx.ok(rule, f, f.node, "a slot is reported iff it is assigned (None and 0 included, the unassigned one left out)")
+    else:
+        ctx.fail(rule, f, f.node, "get_occupied_slots reports %s for an instance whose slots holds_none (None), holds_value and holds_zero (0) are assigned and never_assigned is not; specification %s: "
+                                  "__getstate__ saves the reported slots only, so the copy lacks an assigned slot (AttributeError on read) or gains one" % (got, want),
+                 key=f.qualname + "::presence-not-value", input="class N(param.Parameterized): __slots__ = ['cache']; n = N(); n.cache = None; copy.deepcopy(n).cache")
+
+
 def run(ctx):
+    ctx.rule("R17.v", "get_occupied_slots, interpreted abstractly on an instance with slots holding None / a value / 0 and one never assigned, reports exactly the assigned ones (presence, not value): "
+                      "they are what __getstate__ saves of a subclass's own __slots__", floor=1)
+    occupied_slots_by_presence(ctx, "R17.v")
     ctx.rule("R17.l", "Parameterized.__getstate__, interpreted abstractly, saves every ordinary attribute and the complete per-instance value store -- entries that are still the class default object included (that entry pins a constant to the instance; a copy without it follows later class-level sets)", floor=1)
     ctx.rule("R17.m", "restoring a Parameter restores and nothing else: no __setstate__ of a Parameter class calls a method that recomputes slots from others (_update_state, compute_default, update, _ensure_value_is_in_objects, _validate): the copy must hold what was saved, e.g. an objects list the default was removed from", floor=2)
     ctx.rule("R17.w", "no shared clock is pinned onto copied state: _Dynamic_time_fn (and the value/time pair) of a generator -- which lives in the instance's values and is duplicated by "
